@@ -21,7 +21,7 @@ from typing import Any, Callable
 from .callgraph import CallGraph, CallSite
 from .loader import FuncInfo, Repo, own_nodes
 
-TABLE_VERSION = "2026-09-29.2"
+TABLE_VERSION = "2026-09-30.1"
 
 # ---- class hierarchy of non-repo exception classes (python's own, by introspection) ----
 
@@ -809,6 +809,12 @@ class ExcAnalysis:
             return out
         if ext == "datetime.datetime.replace" and all(k.arg == "tzinfo" for k in call.keywords) and not call.args:
             return out
+        if ext == "datetime.datetime.timestamp":
+            # a naive datetime goes through mktime(): out of range for years near datetime.min/max ("year 0 is out of range")
+            if self.policy.count_dt_edge and not (isinstance(call.func, ast.Attribute) and _is_clock_call(call.func.value)):
+                add(OE, "datetime.timestamp() of a date near datetime.min/max")
+                add(VE, "datetime.timestamp() of a date near datetime.min/max")
+            return out
         if ext in EXT_RAISES:
             if ext == "datetime.timedelta" and self._td_bound(call) is not None:
                 return out
@@ -820,6 +826,10 @@ class ExcAnalysis:
                 add(c)
             return out
         if ext in ("builtins.int", "builtins.float"):
+            if call.args and isinstance(call.args[0], ast.Name):
+                d0 = self._local_def(call.args[0].id)
+                if isinstance(d0, ast.Call) and isinstance(d0.func, ast.Attribute) and d0.func.attr in ("timestamp", "total_seconds", "time", "monotonic", "perf_counter") and not d0.args:
+                    return out  # a float by construction (an Any-typed receiver hides it from the type facts)
             if call.args:
                 at = self.cg.atoms(f, call.args[0]) or ("Any",)
                 if any(a in ("I:builtins.str", "I:builtins.bytes", "Any") or a.startswith("O:") for a in at):
